@@ -2001,7 +2001,11 @@ class Circuit(Function):
 
         blocks = list(self.blocks.values())
         for block in blocks:
-            if gate_label in block.gates or gate_label in block.inputs:
+            if (
+                gate_label in block.gates
+                or gate_label in block.inputs
+                or gate_label in block.outputs
+            ):
                 logger.debug(
                     f"Block {block.name} was removed because gate {gate_label} "
                     "was removed from circuit"
